@@ -186,6 +186,23 @@ func (se *symEval) eval1(v ssa.Value) *sx {
 		}
 		return sxUnk(short(x.String(), 40))
 	case *ssa.Call:
+		// inline module helpers returning a single scalar (e.g. a flag-computing helper)
+		if g := flow.StaticCallee(x); g != nil && se.depth > 0 && g.Blocks != nil && se.c.P.InModule(pkgOf(g)) && g.Signature.Results().Len() == 1 {
+			if _, isBasic := g.Signature.Results().At(0).Type().Underlying().(*types.Basic); isBasic && g.Signature.Recv() == nil {
+				inner := se.c.newSymEval(g, se.depth-1)
+				var alts []*sx
+				for _, rv := range flow.ReturnValues(g, 0) {
+					alts = append(alts, inner.eval(rv))
+				}
+				if len(alts) > 0 {
+					var args []*sx
+					for _, a := range x.Call.Args {
+						args = append(args, se.eval(a))
+					}
+					return substitute(sxPhi(alts...), args)
+				}
+			}
+		}
 		name := "dynamic"
 		if o := flow.CalleeObj(x); o != nil {
 			name = o.FullName()
@@ -480,6 +497,25 @@ func bitXfer(e *sx, in string) ([8]byte, bool) {
 		return r, true
 	}
 	switch e.Op {
+	case "phi":
+		// every alternative must be representable; bits that differ between alternatives are '?'
+		first := true
+		for _, a := range e.Args {
+			x, ok := bitXfer(a, in)
+			if !ok {
+				return r, false
+			}
+			if first {
+				r, first = x, false
+				continue
+			}
+			for i := range r {
+				if r[i] != x[i] {
+					r[i] = '?'
+				}
+			}
+		}
+		return r, !first
 	case "const":
 		var v int64
 		if _, err := fmt.Sscanf(e.Leaf, "%d", &v); err != nil {
@@ -511,9 +547,6 @@ func bitXfer(e *sx, in string) ([8]byte, bool) {
 			case "^":
 				r[i] = bitNot(bitAnd(bitNot(bitAnd(x, bitNot(y))), bitNot(bitAnd(bitNot(x), y))))
 			default:
-				return r, false
-			}
-			if r[i] == '?' {
 				return r, false
 			}
 		}
@@ -549,5 +582,5 @@ func bitAnd(x, y byte) byte {
 	case (x == 's' && y == 'n') || (x == 'n' && y == 's'):
 		return 'z'
 	}
-	return '?'
+	return '?' // path-dependent / unknown bit
 }
